@@ -23,12 +23,20 @@ pub fn compute_alive_vars(project: &Project) -> HashMap<Tid, BTreeSet<Variable>>
         match graph[node] {
             Node::BlkStart(_, _) => (),
             Node::BlkEnd(blk, _sub) => {
-                if graph
+                // A dead end in the CFG has no incoming edges in the reversed CFG.
+                let is_dead_end = graph
                     .neighbors_directed(node, petgraph::Incoming)
                     .next()
-                    .is_none()
-                {
-                    // A dead end in the CFG has no incoming edges in the reversed CFG.
+                    .is_none();
+                // The control flow may also leave the function through a jump without an edge in the CFG
+                // although the block has other outgoing edges,
+                // e.g. a conditional branch followed by a return or by an indirect jump without known targets.
+                let leaves_function = blk.term.jmps.iter().any(|jmp| match &jmp.term {
+                    Jmp::Return(_) => true,
+                    Jmp::BranchInd(_) => blk.term.indirect_jmp_targets.is_empty(),
+                    _ => false,
+                });
+                if is_dead_end || leaves_function {
                     // Since dead ends are mostly due to cases where the control flow graph is incomplete,
                     // we assume that all registers are alive at the end of the block.
                     let mut alive_vars = all_physical_registers.clone();
